@@ -867,3 +867,8 @@ Qed.
 
 Theorem C26_jobj_holds : C26_jobj_stmt.
 Proof. split; [exact jobj_of_wf | exact jobj_of_perm]. Qed.
+
+(* ================================================================================================ *)
+(* tie to the sources *)
+Lemma jsonvalue_source_ok : jsonvalue_source_agrees = true.
+Proof. vm_compute. reflexivity. Qed.
